@@ -118,7 +118,7 @@ def tlc_mc(module, cfg, name, workers=8, timeout=1500, extra=None, env=None, cov
     res["finished"] = "Model checking completed. No error has been found" in out
     # per-action coverage: "<Name line .. of module M>: distinct:generated"
     acts = {}
-    for m in re.finditer(r"^<(\w+) line \d+, col \d+ to line \d+, col \d+ of module (\w+)>: (\d+):(\d+)", out, re.M):
+    for m in re.finditer(r"^<(\w+) line \d+, col \d+ to line \d+, col \d+ of module (\w+)(?: \([\d ]+\))?>: (\d+):(\d+)", out, re.M):
         acts[m.group(1)] = acts.get(m.group(1), 0) + int(m.group(4))
     res["actions"] = acts
     return res
